@@ -14,7 +14,7 @@ ID = "C17"
 LEVEL = "model_checking"
 MIN_OUTCOMES = 3
 MANIFEST = {
-    'text': 'All BUILD ids of 1..5 digits (quick) / 1..7 digits (thorough) including zero-padded ones take one real bump each (edge invariant over every state of a digit class is inductive for chains inside the class); every 37th id also under five flag sets (--pin-increments/--pin-date/--tag/date changes); complete chains of 2,000 / 10,000 bumps from 40 starts confirm the digit-length crossings; `update` chains behind a stale VCS tag; BUILD alone, BLD, and BUILD inside vYYYY0M.BUILD[-TAG] are driven through the real command bodies.',
+    'text': 'All BUILD ids of 1..5 digits (quick) / 1..7 digits (thorough) including zero-padded ones take one real bump each (edge invariant over every state of a digit class is inductive for chains inside the class); every 37th id also under five flag sets (--pin-increments/--pin-date/--tag/date changes); complete chains of 2,000 / 10,000 bumps from 40 starts confirm the digit-length crossings; `update` chains behind a stale VCS tag (one project with `.git` as a file, number-like versions in TOML and unquoted setup.cfg, chains through ids ending in 00) and one step from behind a NEWER tag; BUILD alone, BLD, and BUILD inside vYYYY0M.BUILD[-TAG] are driven through the real command bodies.',
     'note': 'ids longer than 7 digits are not enumerated; all-9 ids are the documented maximum and only required to be refused',
     'technique': 'explicit-state exploration of the deterministic BUILD successor system on the real code, all states of a digit class + full chains',
 }
